@@ -142,6 +142,7 @@ type Term struct {
 	Name   string
 	Val    *big.Int
 	Bound  []*Term
+	Alt    []*Term // equivalent versions of a quantified formula with other trigger-friendly parametrisations
 	id     int
 	closed bool
 	size   int
@@ -797,8 +798,116 @@ func mkForallD(bound []*Term, body *Term, depth int) *Term {
 			return mkAnd(mkForallD(bound, mkImp(c, b1), depth+1), mkForallD(bound, mkImp(mkNot(c), b2), depth+1))
 		}
 	}
-	bound, body = reparam(bound, body)
-	return mkQuant(OpForall, bound, body)
+	vs := reparamAll(bound, body)
+	prim := mkQuant(OpForall, vs[0].bound, vs[0].body)
+	if len(vs) > 1 && prim.Op == OpForall && prim.Alt == nil {
+		for _, v := range vs[1:] {
+			a := mkQuant(OpForall, v.bound, v.body)
+			if a != prim {
+				prim.Alt = append(prim.Alt, a)
+			}
+		}
+	}
+	return prim
+}
+
+type qversion struct {
+	bound []*Term
+	body  *Term
+}
+
+// reparamAll returns equivalent versions of (forall bound. body): for a bound variable b that
+// occurs in array indices as c_k + b (c_k closed), one version per k quantifying over the
+// absolute index c_k + b, so that ground selects on that array match syntactically. The first
+// version is the one whose array term is the most recently created (post-state).
+func reparamAll(bound []*Term, body *Term) []qversion {
+	type form struct {
+		idx *Term
+		c   *Term
+		arr int
+	}
+	cur := qversion{append([]*Term{}, bound...), body}
+	var alts []qversion
+	for bi := range bound {
+		b := cur.bound[bi]
+		forms := map[*Term]*form{}
+		seen := map[*Term]bool{}
+		ok := true
+		var walk func(t *Term)
+		walk = func(t *Term) {
+			if t.closed || seen[t] {
+				return
+			}
+			seen[t] = true
+			if t.Op == OpSelect || t.Op == OpStore {
+				idx := t.Args[1]
+				if !idx.closed && occurs(idx, b) {
+					f := forms[idx]
+					if f == nil {
+						f = &form{idx: idx}
+						forms[idx] = f
+					}
+					if t.Args[0].id > f.arr {
+						f.arr = t.Args[0].id
+					}
+				}
+			}
+			for _, ib := range t.Bound {
+				if ib == b {
+					ok = false
+				}
+			}
+			for _, a := range t.Args {
+				walk(a)
+			}
+		}
+		walk(cur.body)
+		if !ok || len(forms) == 0 || len(forms) > 3 {
+			continue
+		}
+		var fl []*form
+		for _, f := range forms {
+			if f.idx == b {
+				fl = nil
+				break
+			}
+			other := false
+			for _, ob := range cur.bound {
+				if ob != b && occurs(f.idx, ob) {
+					other = true
+				}
+			}
+			if other {
+				continue
+			}
+			if f.c = linearOffset(f.idx, b); f.c != nil {
+				fl = append(fl, f)
+			}
+		}
+		if len(fl) == 0 {
+			continue
+		}
+		sort.Slice(fl, func(i, j int) bool {
+			if fl[i].arr != fl[j].arr {
+				return fl[i].arr > fl[j].arr
+			}
+			return fl[i].idx.id > fl[j].idx.id
+		})
+		mk := func(f *form, from qversion) qversion {
+			nb := mkBound("k", b.Sort)
+			nbody := subst(from.body, map[*Term]*Term{f.idx: nb, b: mkSub(nb, f.c)})
+			nbound := append([]*Term{}, from.bound...)
+			nbound[bi] = nb
+			return qversion{nbound, nbody}
+		}
+		if len(alts) == 0 {
+			for _, f := range fl[1:] {
+				alts = append(alts, mk(f, cur))
+			}
+		}
+		cur = mk(fl[0], cur)
+	}
+	return append([]qversion{cur}, alts...)
 }
 
 // findIndexIte: an integer-valued ite with a non-closed condition occurring in an array index.
